@@ -1,5 +1,8 @@
 CONSTANTS R = 3
   K = 2
+  MaxCrashes = 2
+  FixTornAppend = TRUE
+  CompFirst = TRUE
 SPECIFICATION Spec
-INVARIANTS C07_Interrupted C07_LatestNoErr C07_Recent1 C07_Recent2
+INVARIANTS C07_Interrupted C07_LatestNoErr C07_Recent1 C07_Recent2 C07_AckedIsShown
 CHECK_DEADLOCK FALSE
